@@ -603,30 +603,30 @@ func handoffRule(c *Check, cone *Cone, read *ssa.Function) {
 	// the processor: Read and the functions of its package it is split into
 	body := cmdBody(p, read)
 	for _, bf := range body {
-	allInstrs(bf, func(in ssa.Instruction) {
-		mk, ok := in.(*ssa.MakeChan)
-		if !ok {
-			return
-		}
-		ch, ok := mk.Type().Underlying().(*types.Chan)
-		if !ok || !isErrorType(ch.Elem()) {
-			return
-		}
-		e := echan{mk: mk, cap: -1}
-		if k, ok := mk.Size.(*ssa.Const); ok && k.Value != nil && k.Value.Kind() == constant.Int {
-			e.cap = k.Int64()
-		}
-		if rr := mk.Referrers(); rr != nil {
-			for _, u := range *rr {
-				if st, ok := u.(*ssa.Store); ok {
-					if a, ok := st.Addr.(*ssa.Alloc); ok {
-						e.cell = a
+		allInstrs(bf, func(in ssa.Instruction) {
+			mk, ok := in.(*ssa.MakeChan)
+			if !ok {
+				return
+			}
+			ch, ok := mk.Type().Underlying().(*types.Chan)
+			if !ok || !isErrorType(ch.Elem()) {
+				return
+			}
+			e := echan{mk: mk, cap: -1}
+			if k, ok := mk.Size.(*ssa.Const); ok && k.Value != nil && k.Value.Kind() == constant.Int {
+				e.cap = k.Int64()
+			}
+			if rr := mk.Referrers(); rr != nil {
+				for _, u := range *rr {
+					if st, ok := u.(*ssa.Store); ok {
+						if a, ok := st.Addr.(*ssa.Alloc); ok {
+							e.cell = a
+						}
 					}
 				}
 			}
-		}
-		chans = append(chans, e)
-	})
+			chans = append(chans, e)
+		})
 	}
 	c.Floor("error channels created by the processor", 2, len(chans))
 	// sends on error channels in the cone
@@ -666,37 +666,37 @@ func handoffRule(c *Check, cone *Cone, read *ssa.Function) {
 					// helper or a method of a named channel type, at its call sites
 					cos := resolveUp(p, fn, st.Chan, 0)
 					for _, co := range cos {
-					if co.K == "field" {
-						// stores to that field
-						fv := fieldVarOf(co)
-						for _, f2 := range p.AllRepoFuncs() {
-							allInstrs(f2, func(i2 ssa.Instruction) {
-								s2, ok := i2.(*ssa.Store)
-								if !ok {
-									return
-								}
-								fa, ok := s2.Addr.(*ssa.FieldAddr)
-								if !ok || structFieldVar(fa.X.Type(), fa.Field) != fv || !p.InDaemon(f2) {
-									return
-								}
-								var soAlts []*Org
-								for _, a0 := range resolveUp(p, f2, s2.Val, 0) {
-									soAlts = append(soAlts, Deref(a0, 0)...)
-								}
-								for _, a := range soAlts {
-									if mk, ok := a.V.(*ssa.MakeChan); ok {
-										if k, ok := mk.Size.(*ssa.Const); ok && k.Value != nil && k.Int64() >= 1 {
-											capOK = true
-											why = fmt.Sprintf("channel made with capacity %d at %s", k.Int64(), p.InstrPos(mk))
-										} else {
-											capOK = false
-											why = "the channel is made without a buffer: with a non-blocking send the error is dropped whenever the processor is not already waiting in its select"
+						if co.K == "field" {
+							// stores to that field
+							fv := fieldVarOf(co)
+							for _, f2 := range p.AllRepoFuncs() {
+								allInstrs(f2, func(i2 ssa.Instruction) {
+									s2, ok := i2.(*ssa.Store)
+									if !ok {
+										return
+									}
+									fa, ok := s2.Addr.(*ssa.FieldAddr)
+									if !ok || structFieldVar(fa.X.Type(), fa.Field) != fv || !p.InDaemon(f2) {
+										return
+									}
+									var soAlts []*Org
+									for _, a0 := range resolveUp(p, f2, s2.Val, 0) {
+										soAlts = append(soAlts, Deref(a0, 0)...)
+									}
+									for _, a := range soAlts {
+										if mk, ok := a.V.(*ssa.MakeChan); ok {
+											if k, ok := mk.Size.(*ssa.Const); ok && k.Value != nil && k.Int64() >= 1 {
+												capOK = true
+												why = fmt.Sprintf("channel made with capacity %d at %s", k.Int64(), p.InstrPos(mk))
+											} else {
+												capOK = false
+												why = "the channel is made without a buffer: with a non-blocking send the error is dropped whenever the processor is not already waiting in its select"
+											}
 										}
 									}
-								}
-							})
+								})
+							}
 						}
-					}
 					}
 					c.Cond(capOK, "error-handoff-keeps-first-error", name, p.InstrPos(in), "non-blocking send into a buffered channel: the first error always fits ("+why+")", why)
 				}
@@ -834,7 +834,6 @@ func describeErrSend(r *Resolver, v ssa.Value) string {
 	o := r.Of(v)
 	return trimOrg(strings.SplitN(o.String(), "@", 2)[0])
 }
-
 
 // isReassemblerCall: a call of method name of go-libaudit's Reassembler,
 // directly or through an interface the Reassembler implements.
